@@ -161,8 +161,17 @@ class Check:
         info = {"obligations": 0, "discharged": 0, "theorems": {}, "problems": [], "build_failed": []}
         tr = translate.regenerate(REPO)
         info["translator"] = tr
-        for p in tr.get("problems", []):
+        # a translator problem is a broken obligation of the properties its extractor serves (declared by the extractor,
+        # or read off the Lean sources: a property whose modules refer to one of the extractor's definitions) — not of
+        # every property.  The definitions of a failed extractor are emitted as marked place-holders, so the modules of the
+        # other properties (and the driver) still build; a build failure of this property's own modules is reported below.
+        mine, others = translate.problems_for(tr, self.prop)
+        for p in mine:
             info["problems"].append("translator: " + p)
+        info["translator_problems_elsewhere"] = others
+        if others:
+            self.notes.append(f"{len(others)} translator problem(s) that concern other properties only: "
+                              + "; ".join(o[:160] for o in others[:5]))
         targets = list(getattr(mod, "LEAN_MODULES", [])) + ["ccpdrv"]
         b = lean.build(targets)
         info["build_wall_s"] = round(b.wall_s, 2)
@@ -503,7 +512,8 @@ class Check:
                     "Lean 4.33.0 kernel",
                     "axioms allowed: propext, Classical.choice, Quot.sound (audited per theorem this run)",
                     "correspondence harness (generators, canonicalisation, line protocol, diff)",
-                    "table translator harness/translate.py",
+                    "table translator harness/translate.py (AST path: constexpr.py, rxscan.py; dynamic path: probe.py runs the "
+                    "package of the tree under test on fixed probe inputs at translate time)",
                 ] + list(getattr(mod, "TRUSTED", [])),
                 "theorems": info["theorems"],
                 "proof_problems": info["problems"],
